@@ -5,7 +5,7 @@ for prop in "$@"; do
  WT=/tmp/wt-s3-$prop-$$
  git -C /repo worktree add -q --detach $WT HEAD || exit 2
  for i in 1 2 3; do
-  P=/tmp/seed3-$prop/patch$i.diff; [ -f $P ] || continue
+  P=/tmp/seed${WAVE:-3}-$prop/patch$i.diff; [ -f $P ] || continue
   (cd $WT && git checkout -q -- . && git apply $P) || { echo "$prop/$i: PATCH DOES NOT APPLY"; continue; }
   out=$(VERIF_REPO_OVERRIDE=$WT VERIF_BUDGET_S=${VERIF_BUDGET_S:-25} timeout 1200 ./check $prop quick 2>&1); rc=$?
   echo "$prop/$i: exit $rc $(echo "$out" | grep -m1 'oracle=' | cut -c1-220)"
